@@ -78,6 +78,9 @@ func execC07(c Case) string {
 		return hs(base58.CheckEncode(unhx(a[1]), byte(atoi(a[0]))))
 	case "chkdec":
 		p, v, err := base58.CheckDecode(string(unhx(a[0])))
+		if err != nil && (p != nil || v != 0) {
+			return "err-with-a-payload:" + itoa(int(v)) + ":" + hx(p) // nothing unverified may come back with an error
+		}
 		if err == base58.ErrInvalidFormat {
 			return "err:format"
 		} else if err == base58.ErrChecksum {
@@ -177,6 +180,31 @@ func genC07(r *Rng, tier string, emit func(Case)) {
 		e("b58rt", "zeros", hx(append(make([]byte, z), 1, 2)))
 		e("b58rt", "zeros", hx(make([]byte, z)))
 		e("b58sr", "ones", hx(append([]byte(strings.Repeat("1", z)), '2', 'a')))
+	}
+	// Base58 strings with every 3-character beginning over a small digit set and lengths of both parities (encoders that
+	// take several digits per division treat the leading, incomplete group specially), and strings holding blocks of
+	// 9, 10, 11 and 20 '1' digits (value 0) at every offset 0..11 from the end
+	for _, c1 := range "12az" {
+		for _, c2 := range "12az" {
+			for _, c3 := range "12az" {
+				for _, l := range []int{3, 4, 5, 8, 9, 10, 11, 20, 21} {
+					t := []byte{byte(c1), byte(c2), byte(c3)}
+					for len(t) < l {
+						t = append(t, b58alpha[r.Intn(58)])
+					}
+					e("b58sr", "heads", hx(t))
+				}
+			}
+		}
+	}
+	for _, k := range []int{9, 10, 11, 20} {
+		for off := 0; off <= 11; off++ {
+			t := append([]byte("2z"), bytes.Repeat([]byte{'1'}, k)...)
+			for j := 0; j < off; j++ {
+				t = append(t, b58alpha[1+r.Intn(57)])
+			}
+			e("b58sr", "onesblock", hx(t))
+		}
 	}
 	// Base58Check: every payload length 0..80 (fixed-size buffers around 32 and 64 bytes)
 	for l := 0; l <= 80; l++ {
@@ -299,6 +327,18 @@ func genC07(r *Rng, tier string, emit func(Case)) {
 		s0, err := bech32.Encode(string(hrp), append([]byte{}, data...))
 		if err == nil {
 			e("bechdec", "valid", hs(s0))
+			// bit variants: one data character replaced by the same byte with one bit flipped (all 8 bits), in the
+			// lower- and the upper-case rendering (control bytes, the other case, bytes with the top bit set)
+			if i%3 == 0 && len(s0) > len(hrp)+1 {
+				for _, base := range []string{s0, strings.ToUpper(s0)} {
+					pos := len(hrp) + 1 + r.Intn(len(s0)-len(hrp)-1)
+					for b := uint(0); b < 8; b++ {
+						t := []byte(base)
+						t[pos] ^= 1 << b
+						e("bechdec", "bitvariant", hs(string(t)))
+					}
+				}
+			}
 			// a valid string followed / preceded by further characters (foreign ones, alphabet ones, white space)
 			if i%4 == 0 {
 				for _, t := range []string{"b", "~x", "q", " ", "\n", "\x00", "1q"} {
